@@ -19,6 +19,7 @@ def main():
         replay = sys.argv[sys.argv.index("--replay") + 1]
     os.environ["VERIF_TIER"] = tier
     import props
+    props._load_modules()
     spec = props.REGISTRY.get(prop)
     if spec is None:
         print("unknown property %s" % prop, file=sys.stderr)
